@@ -429,6 +429,12 @@ def c13_cleanup(v, ctx, tftpd, T=1):
             for cause in ("error", "silence"):
                 for j in (0, 1, 2, 4):
                     plans.append((srv, sb, keep, w, cause, j))
+    # one client socket abandons an upload and starts another one (different name) at once: the first one still fails and is
+    # cleaned up, the second one is stored
+    for single in (False, True):
+        sb = ctx.sandbox("c13clean")
+        srv = N.Server(tftpd, sb["srv"], single=single, logdir=sb["logs"]).start()
+        plans.append((srv, sb, False, 1, "same-socket-next-upload", 1))
     # a plain RFC 1350 upload (no option at all, so the default 5 s timeout applies) whose client falls silent, both modes
     for single in (False, True):
         sb = ctx.sandbox("c13clean")
@@ -457,7 +463,16 @@ def c13_cleanup(v, ctx, tftpd, T=1):
             sent = burst[-1]
             if sent % w == 0:
                 N.recv(s, tr, timeout=1.0)
-        if cause == "error":
+        if cause == "same-socket-next-upload":
+            second = N.keyed_content(name + "-second", 700)
+            tr2 = N.upload(srv.addr, "second_" + name, second, [("timeout", 1)], sock=s)
+            time.sleep(6 * T + 1.5)
+            p2 = os.path.join(sb["srv"], "second_" + name)
+            got2 = open(p2, "rb").read() if os.path.exists(p2) else None
+            if not tr2.completed or got2 != second:
+                s.close()
+                return p, name, content, None, f"the second upload from the same socket did not complete ({tr2.note} {tr2.error})"
+        elif cause == "error":
             s.sendto(N.enc_error(0, b"client aborts"), peer)
             time.sleep(0.3)
         elif plain:
